@@ -20,7 +20,7 @@ from .common import parallel_map
 
 RULE = ("case = product graph (3-6 names x 1-3 versions, required/optional edges, bare / explicit / expression / "
         "version+[expression] specs, -j, --external, optional products absent, unsetupRequired/unsetupOptional lines (with and without -j) "
-        "in intermediate tables taking away a product the table brought in, a share of the dependency tables already in "
+        "in intermediate tables taking away a product the table brought in and in the expanded table itself (of an absent product, of a leaf it set up, of a leaf it sets up again), a share of the dependency tables already in "
         "expanded form (exact block + inexact branch); 'cf' stream conflict-free by construction, "
         "'arb' stream with arbitrary specs incl. diamond conflicts) + build-time setup of the top product + expansion of its "
         "table (CLI defaults) + 0-4 syntactic/option variants expanded in the same environment + random evolution "
@@ -533,9 +533,11 @@ def oracle_exact_actions(case, res):
         yield "the expanded table does not parse in exact mode: %s" % xa["acts"]
         return
     built, pins = res["built"], case["opts"]["pins"]
-    is_setup = lambda c: c == "setupRequired"  # noqa
+    # setup commands = the commands that set a product up or take one away (the expander keeps both kinds in the setup blocks,
+    # i.e. in the inexact branch; exact mode sets the recorded closure up directly)
+    is_setup = lambda c: c in ("setupRequired", "unsetupRequired")  # noqa
     for a in xa["acts"]:
-        if not is_setup(a["cmd"]) or "--external" in a["args"] or (a["args"] and a["args"][0] == "eups"):
+        if a["cmd"] != "setupRequired" or "--external" in a["args"] or (a["args"] and a["args"][0] == "eups"):
             continue
         ar = a["args"]
         if not (len(ar) == 3 and ar[1] == "-j" and (built.get(ar[0]) == ar[2] or pins.get(ar[0]) == ar[2])):
@@ -674,9 +676,9 @@ def oracle_case(case, res):
 
 # ---- the regular expressions, one by one -------------------------------------------------------------------
 
-RE_TOKENS = ["setupRequired(", "setupRequired(", "setupOptional(", "setupOptional(", ")", ")", "setupRequired", "setup", '"', ")", "(", " ", " ", "\t", "#", "a", "b 1", "eups", "-j",
+RE_TOKENS = ["setupRequired(", "setupRequired(", "setupOptional(", "setupOptional(", "unsetupRequired(", "unsetupOptional(", "un", "u", "n", ")", ")", "setupRequired", "setup", '"', ")", "(", " ", " ", "\t", "#", "a", "b 1", "eups", "-j",
              "[", "]", ">=", "==", "=", " = 1", "<", "{", "}", "if", "(type", "exact)", "--external", "x", "1.0", "\r", "\x0b"]
-REX = r'(setupRequired|setupOptional)\("?([^"]*)"?\)'
+REX = r'((?:un)?setup(?:Required|Optional))\("?([^"]*)"?\)'
 
 
 def gen_re_line(rng):
@@ -700,7 +702,8 @@ def python_re(l):
     mat = re.search(r"^(.*)\s*\]$", a)
     br += [mat.group(1), "]"] if mat else [a]
     return {"blank": bool(re.search(r"^\s*(#.*)?$", l)), "nocomment": re.sub(r"\s*#.*$", "", l),
-            "rex": {"optional": m.group(1) == "setupOptional", "args": m.group(2), "len": len(m.group(0))} if m else None,
+            "rex": {"optional": m.group(1) == "setupOptional", "args": m.group(2), "len": len(m.group(0)),
+                    "unsetup": m.group(1).startswith("unsetup")} if m else None,
             "preExact": bool(re.search(r"if\s*\(type\s*==\s*exact\)\s*{", l)), "openBrace": bool(re.search(r"{\s*$", l)),
             "closeBrace": bool(re.search(r"^\s*}\s*$", l)), "split": l.split(), "strip": l.strip(),
             "relop": bool(re.search(r"<=?|>=?|==", l)), "badrelop": bool(re.match(r"^\s*=\s+\S+", l)),
@@ -791,6 +794,8 @@ def evaluate(ctx, cases):
             for l in ls:
                 if l["k"] == "unsetup":
                     ctx.hist("unsetup_line=%s%s" % ("optional" if l["optional"] else "required", " -j" if l.get("flags") else ""))
+                    if l.get("top"):
+                        ctx.hist("top_table_unsetup_line=%s" % l["top"])
         ctx.hist("build=%s" % r.get("build_ok"))
         if not ok:
             continue
@@ -1016,6 +1021,8 @@ def run(ctx):
     if ctx.evaluations >= 100:
         if h.get("build=True", 0) < 0.5 * ctx.evaluations:
             raise common.InfraError("degenerate distribution: only %d of %d builds succeeded" % (h.get("build=True", 0), ctx.evaluations))
+        if ctx.evaluations >= 300 and not any(k.startswith("top_table_unsetup_line=") for k in h):
+            raise common.InfraError("degenerate distribution: no unsetup line in an expanded table among %d cases" % ctx.evaluations)
         if h.get("exact_block=pins", 0) < 0.3 * ctx.evaluations:
             raise common.InfraError("degenerate distribution: only %d of %d expansions have a non-empty exact block" % (h.get("exact_block=pins", 0), ctx.evaluations))
 
